@@ -61,6 +61,15 @@ def _run_parallel(ctx, jobs, timeout):
     env = dict(os.environ)
     env["TMPDIR"] = ctx.tmp
     env["HOME"] = os.path.join(ctx.work, "home")
+    # did_change marks the file dirty through forc-util's pid lock files, which runs `ps -p <pid>` per lock file
+    # (C25's subject).  procps scans /proc on every call; an equivalent shim keeps the replay fast.
+    bindir = os.path.join(ctx.work, "bin")
+    os.makedirs(bindir, exist_ok=True)
+    with open(os.path.join(bindir, "ps"), "w") as f:
+        f.write('#!/bin/sh\n# ps -p <pid>: print the pid if the process exists\n'
+                'echo "    PID TTY          TIME CMD"\n[ -d "/proc/$2" ] && echo "$2 ?        00:00:00 x"\nexit 0\n')
+    os.chmod(os.path.join(bindir, "ps"), 0o755)
+    env["PATH"] = bindir + os.pathsep + env.get("PATH", "")
     env["RAYON_NUM_THREADS"] = "2"     # the token traversal's thread pool; 16 spinning threads per process only cost time
     os.makedirs(env["HOME"], exist_ok=True)
     running, todo, t0 = [], list(jobs), time.time()
